@@ -40,7 +40,7 @@ func statsToSimkit(w *chainsim.World) {
 	sort.Strings(keys)
 	for _, k := range keys {
 		switch k {
-		case "byz_serving_unlinked_block", "byz_lying_common_block", "gossip_topic_blackout", "gossip_dropped", "gossip_duplicated", "gossip_cut", "rpc_timeout", "rpc_error", "rpc_truncated", "rpc_bitflip", "crash", "restart", "partition", "heal", "ban":
+		case "crash_inside_step", "byz_serving_unlinked_block", "byz_lying_common_block", "gossip_topic_blackout", "gossip_dropped", "gossip_duplicated", "gossip_cut", "rpc_timeout", "rpc_error", "rpc_truncated", "rpc_bitflip", "crash", "restart", "partition", "heal", "ban":
 			simkit.FaultN(k, w.S.Stats[k])
 		default:
 			simkit.Count(k, int64(w.S.Stats[k]))
